@@ -115,6 +115,13 @@ func snapOutside(caseDir, dest string) (map[string]string, error) {
 			out[e.Path] = fmt.Sprintf("dest-dir type=%c perm=%o owner=%d:%d ino=%d", e.Type, e.Perm, e.UID, e.GID, e.Ino)
 			continue
 		}
+		if e.Path == "outside/shared" {
+			// this one has a second name inside dest (a snapshot made with
+			// cp -al): a link added or removed inside dest legitimately moves
+			// its link count and ctime; everything else of it must stay
+			out[e.Path] = fmt.Sprintf("%s ino=%d", e.String(), e.Ino)
+			continue
+		}
 		out[e.Path] = fmt.Sprintf("%s ino=%d nlink=%d ctime=%d", e.String(), e.Ino, e.Nlink, e.Ctime)
 	}
 	return out, nil
@@ -269,7 +276,7 @@ func c03Run(c *core.Ctx) *core.Result {
 		r.Count("prior_dirs_announced_as_symlink_or_fifo", 1)
 	}
 	// one mutation
-	mut := core.Pick(R, []string{"none", "none", "dotdot", "dot", "empty", "updown", "dotdotx", "abs", "unclean", "dup", "order", "childofnondir", "noparent", "hl-unknown", "hl-later", "hl-escape", "hl-nonfile", "data-unsolicited", "data-afterterm", "backslash", "newline", "hugesize", "fin-early", "stat-after-end", "err-packet", "req-from-sender", "hl-via-dest-symlink", "hl-via-dest-symlink", "tmp-name-planted", "random-script", "random-script", "deep-revisit", "deep-revisit", "listing-dir-child"})
+	mut := core.Pick(R, []string{"none", "none", "dotdot", "dot", "empty", "updown", "dotdotx", "abs", "unclean", "dup", "order", "childofnondir", "noparent", "hl-unknown", "hl-later", "hl-escape", "hl-nonfile", "data-unsolicited", "data-afterterm", "backslash", "newline", "hugesize", "fin-early", "stat-after-end", "err-packet", "req-from-sender", "hl-via-dest-symlink", "hl-via-dest-symlink", "tmp-name-planted", "random-script", "random-script", "deep-revisit", "deep-revisit", "listing-dir-child", "hl-shared-inode"})
 	k := 0
 	if len(stats) > 0 {
 		k = R.Intn(len(stats) + 1)
@@ -414,6 +421,27 @@ func c03Run(c *core.Ctx) *core.Result {
 					stats[j-1], stats[j] = stats[j], stats[j-1]
 				}
 			}
+		}
+	case "hl-shared-inode":
+		// dest holds a name of an inode that has another name outside dest.
+		// The stream announces that name exactly as it is on disk (so it is
+		// left alone) and then a hard link to it with other metadata: the
+		// inode is not the transfer's to change
+		sh := filepath.Join(outside, "shared")
+		os.WriteFile(sh, []byte("SENTINEL-SHARED"), 0644)
+		os.Chmod(sh, 0644)
+		os.Chtimes(sh, time.Unix(1_000_000_000, 0), time.Unix(1_000_000_000, 0))
+		os.RemoveAll(filepath.Join(dest, "0shared"))
+		if os.Link(sh, filepath.Join(dest, "0shared")) == nil {
+			same := &types.Stat{Path: "0shared", Mode: 0644, Size: int64(len("SENTINEL-SHARED")), ModTime: 1_000_000_000 * 1_000_000_000}
+			stats = append([]*types.Stat{same}, stats...)
+			m := fileStat("zz-shared-link")
+			m.Linkname = "0shared"
+			m.Mode = uint32(os.ModeSetuid | 0755)
+			m.Uid, m.Gid, m.ModTime = 1000, 1000, 5_000_000_000
+			m.Xattrs = map[string][]byte{"user.evil": []byte("x")}
+			stats = append(stats, m)
+			r.Count("hard_link_to_inode_shared_with_outside_scripts", 1)
 		}
 	case "listing-dir-child":
 		// the name of the metadata-only listing announced as a directory with
